@@ -20,7 +20,7 @@ def meta(pid):
     for node in tree.body:
         if isinstance(node, ast.Assign) and len(node.targets) == 1 and isinstance(node.targets[0], ast.Name):
             name = node.targets[0].id
-            if name in ('CLAIMED', 'LEVEL_TEXT', 'LEVEL_NOTE', 'TECHNIQUE', 'DESIGN_REF', 'NA_REASON'):
+            if name in ('CLAIMED', 'LEVEL_TEXT', 'LEVEL_NOTE', 'LEVEL_ADDED', 'TECHNIQUE', 'DESIGN_REF', 'NA_REASON'):
                 try:
                     out[name] = ast.literal_eval(node.value)
                 except Exception:
@@ -42,7 +42,7 @@ def main():
             'evidence_file': 'evidence/%s.json' % pid,
             'replay_cmd_template': './check %s --replay {path}' % pid,
             'engine': 'crosshair-z3',
-            'level_claimed': {'category': 'other', 'text': m.get('LEVEL_TEXT', ''),
+            'level_claimed': {'category': 'other', 'text': (m.get('LEVEL_TEXT', '') + ' ' + m.get('LEVEL_ADDED', '')).strip(),
                               'design_ref': m.get('DESIGN_REF', 'DESIGN.md section 6, ' + pid)},
             'level_note': m.get('LEVEL_NOTE', ''),
             'technique': m.get('TECHNIQUE', 'bounded symbolic execution of the real Python source (CrossHair + z3), '
